@@ -1532,6 +1532,33 @@ def _n71(tree):
     for n in ast.walk(tree):
         if isinstance(n, (ast.For, ast.comprehension)):
             n.iter = strip(n.iter)
+    # N71b the snapshot bound to a local first: `v = list(class_subobjects(X))`, v bound once, only ever iterated (loop or comprehension),
+    # X a name that the function never re-binds -> every `in v` becomes `in class_subobjects(X)` and the binding goes
+    for fn in [n for n in ast.walk(tree) if isinstance(n, (ast.FunctionDef, ast.AsyncFunctionDef))]:
+        binds = {}
+        stores = {}
+        for n in ast.walk(fn):
+            if isinstance(n, ast.Name) and isinstance(n.ctx, (ast.Store, ast.Del)):
+                stores[n.id] = stores.get(n.id, 0) + 1
+        params = {a.arg for a in fn.args.args + fn.args.kwonlyargs}
+        for holder, fld, blk in list(_blocks(fn)):
+            for st in blk:
+                if isinstance(st, ast.Assign) and len(st.targets) == 1 and isinstance(st.targets[0], ast.Name) and stores.get(st.targets[0].id) == 1 \
+                        and st.targets[0].id not in params:
+                    g = strip(st.value)
+                    if g is not st.value and len(g.args) == 1 and not g.keywords and isinstance(g.args[0], ast.Name) \
+                            and stores.get(g.args[0].id, 0) == 0:
+                        binds[st.targets[0].id] = (st, blk, g)
+        for v, (st, blk, g) in binds.items():
+            uses = [n for n in ast.walk(fn) if isinstance(n, ast.Name) and n.id == v and isinstance(n.ctx, ast.Load)]
+            iters = [n for n in ast.walk(fn) if isinstance(n, (ast.For, ast.comprehension)) and isinstance(n.iter, ast.Name) and n.iter.id == v]
+            if not uses or len(uses) != len(iters):
+                continue
+            for n in iters:
+                n.iter = ast.copy_location(copy.deepcopy(g), n.iter)
+            blk.remove(st)
+            if not blk:
+                blk.append(ast.copy_location(ast.Pass(), st))
     return tree
 
 
@@ -1916,6 +1943,103 @@ def _n86(fn):
     return False
 
 
+def _n98(fn):
+    """N98 a constant of the enclosing function read by a nested function: `v = <literal of constants>` bound once at the top level of
+    F (tuple / str / number / frozen literal; never re-bound, no nonlocal/global) and read inside a nested def -> the literal at each
+    such read (module constants are folded by step K; this is the same for a closure constant)."""
+    def lit(e):
+        if isinstance(e, ast.Constant):
+            return True
+        return isinstance(e, ast.Tuple) and all(lit(x) for x in e.elts)
+    nested = [n for n in ast.walk(fn) if isinstance(n, (ast.FunctionDef, ast.AsyncFunctionDef, ast.Lambda)) and n is not fn]
+    if not nested:
+        return
+    if any(isinstance(n, (ast.Nonlocal, ast.Global)) for n in ast.walk(fn)):
+        return
+    stores = {}
+    for n in ast.walk(fn):
+        if isinstance(n, ast.Name) and isinstance(n.ctx, (ast.Store, ast.Del)):
+            stores[n.id] = stores.get(n.id, 0) + 1
+        elif isinstance(n, ast.arg):
+            stores[n.arg] = stores.get(n.arg, 0) + 2
+    consts = {}
+    for st in fn.body:
+        if isinstance(st, ast.Assign) and len(st.targets) == 1 and isinstance(st.targets[0], ast.Name) and lit(st.value) \
+                and stores.get(st.targets[0].id) == 1:
+            consts[st.targets[0].id] = st.value
+    if not consts:
+        return
+    for g in nested:
+        class T(ast.NodeTransformer):
+            def visit_Name(self, n):
+                if isinstance(n.ctx, ast.Load) and n.id in consts:
+                    return ast.copy_location(copy.deepcopy(consts[n.id]), n)
+                return n
+        if isinstance(g, ast.Lambda):
+            g.body = T().visit(g.body)
+        else:
+            g.body = [T().visit(x) for x in g.body]
+
+
+def _n97(fn, counter):
+    """N97 first match over two candidates written out: `x = E1; if not C(x): x = E2; if not C(x): <B, leaving>` (C a test without
+    effects that reads x, E1/E2 without calls other than str methods, B does not read x) ->
+    `L = [x for x in (E1, E2) if C(x)]; if not L: <B>; x = L[0]` - the input form of N86. (C(E1): x = E1 = L[0]; else C(E2): x = E2 and
+    L = [E2]; else B.)"""
+    def pure_test(e):
+        for c in ast.walk(e):
+            if isinstance(c, ast.Call) and not (isinstance(c.func, ast.Attribute) and c.func.attr in ('has_attribute', 'is_scalar', 'is_mapping',
+                                                                                                      'is_sequence', 'startswith', 'endswith')
+                                                or isinstance(c.func, ast.Name) and c.func.id in ('isinstance', 'hasattr', 'len', 'issubclass')):
+                return False
+        return True
+
+    def simple(e):
+        for c in ast.walk(e):
+            if isinstance(c, ast.Call) and not (isinstance(c.func, ast.Attribute) and c.func.attr in (
+                    'replace', 'lower', 'upper', 'strip', 'lstrip', 'rstrip', 'title', 'capitalize', 'casefold')):
+                return False
+            if isinstance(c, (ast.Yield, ast.YieldFrom, ast.Await, ast.NamedExpr, ast.Lambda)):
+                return False
+        return True
+
+    def neg(t):
+        return t.operand if isinstance(t, ast.UnaryOp) and isinstance(t.op, ast.Not) else None
+    for holder, fld, blk in list(_blocks(fn)):
+        for i in range(len(blk) - 2):
+            s1, s2, s3 = blk[i], blk[i + 1], blk[i + 2]
+            if not (isinstance(s1, ast.Assign) and len(s1.targets) == 1 and isinstance(s1.targets[0], ast.Name) and simple(s1.value)):
+                continue
+            x = s1.targets[0].id
+            if not (isinstance(s2, ast.If) and not s2.orelse and neg(s2.test) is not None and len(s2.body) == 1
+                    and isinstance(s2.body[0], ast.Assign) and len(s2.body[0].targets) == 1 and isinstance(s2.body[0].targets[0], ast.Name)
+                    and s2.body[0].targets[0].id == x and simple(s2.body[0].value)):
+                continue
+            if not (isinstance(s3, ast.If) and not s3.orelse and neg(s3.test) is not None and ast.dump(neg(s3.test)) == ast.dump(neg(s2.test))
+                    and s3.body and isinstance(s3.body[-1], (ast.Continue, ast.Return, ast.Raise))):
+                continue
+            c = neg(s2.test)
+            if not pure_test(c) or not any(isinstance(n, ast.Name) and n.id == x for n in ast.walk(c)):
+                continue
+            if any(isinstance(n, ast.Name) and n.id == x for e in (s1.value, s2.body[0].value) for n in ast.walk(e)):
+                continue
+            if any(isinstance(n, ast.Name) and n.id == x for b in s3.body for n in ast.walk(b)):
+                continue
+            counter[0] += 1
+            L = '_first%d' % counter[0]
+            comp = ast.ListComp(ast.Name(x, ast.Load()), [ast.comprehension(ast.Name(x, ast.Store()), ast.Tuple([s1.value, s2.body[0].value], ast.Load()),
+                                                                            [copy.deepcopy(c)], 0)])
+            n1 = ast.Assign([ast.Name(L, ast.Store())], comp)
+            n2 = ast.If(ast.UnaryOp(ast.Not(), ast.Name(L, ast.Load())), list(s3.body), [])
+            n3 = ast.Assign([ast.Name(x, ast.Store())], ast.Subscript(ast.Name(L, ast.Load()), ast.Constant(0), ast.Load()))
+            for a, b in ((n1, s1), (n2, s3), (n3, s1)):
+                ast.copy_location(a, b)
+                ast.fix_missing_locations(a)
+            blk[i:i + 3] = [n1, n2, n3]
+            return True
+    return False
+
+
 def _n87(fn):
     """N87 construction deferred behind a sentinel: `v = None; if A: v = X elif B: <other locals> ..; if v is None: v = E(<other locals>)`
     -> every arm that does not bind v (and does not leave) ends with `v = E(..)`; the sentinel and the deferred statement go"""
@@ -2127,6 +2251,7 @@ def pre_normalize(tree: ast.Module) -> ast.Module:
                 _n62(fn, isinstance(holder, ast.ClassDef) and not any(isinstance(d, ast.Name) and d.id == 'staticmethod' for d in fn.decorator_list),
                      counter)
     for fn in [n for n in ast.walk(tree) if isinstance(n, (ast.FunctionDef, ast.AsyncFunctionDef))]:
+        _n98(fn)
         _n95(fn)
         _n83(fn)
         _n94(fn, counter)
@@ -2135,6 +2260,7 @@ def pre_normalize(tree: ast.Module) -> ast.Module:
         _n89(fn, counter)
         _n87(fn)
         _n88(fn)
+        _n97(fn, counter)
         _n86(fn)
         _n85(fn, counter)
         _n68(fn)
